@@ -20,6 +20,7 @@ var (
 	shM10   = world.Shape{CPUm: 500, GPUMem: "10000"}
 	shM30   = world.Shape{CPUm: 500, GPUMem: "30000"}
 	shMF2   = world.Shape{CPUm: 500, Fraction: "0.5", NumDev: "2"}
+	shMM2   = world.Shape{CPUm: 500, GPUMem: "30000", NumDev: "2"} // 2 devices x 30000 MiB
 )
 
 // multisets enumerates all multisets of size k over n menu indices (non-decreasing index lists).
